@@ -773,16 +773,49 @@ func (ig Integration) Filter() glf.Filter {
 		fields []string
 		addrs  []string
 	)
+	// The address restriction is sent to the node only when no row can be
+	// accepted without it: the filter matches whole addresses positively and
+	// either every filter has to hold or it is the only one.
+	var nfilters int
+	for i := range ig.coldefs {
+		if ig.coldefs[i].Input.Filter.active() || ig.coldefs[i].BlockData.Filter.active() {
+			nfilters++
+		}
+	}
+	decisive := ig.filterAGG == "and" || nfilters == 1
 	for i := range ig.Block {
 		fields = append(fields, ig.Block[i].Name)
 
-		if ig.Block[i].Name == "log_addr" && len(ig.Block[i].Filter.Arg) > 0 {
-			for _, arg := range ig.Block[i].Filter.Arg {
+		f := ig.Block[i].Filter
+		if ig.Block[i].Name == "log_addr" && len(f.Arg) > 0 && decisive && f.wholeAddresses() {
+			for _, arg := range f.Arg {
 				addrs = append(addrs, eth.EncodeHex(eth.DecodeHex(arg)))
 			}
 		}
 	}
 	return *glf.New(fields, addrs, [][]string{{eth.EncodeHex(ig.sighash)}})
+}
+
+// a filter that takes part in accepting or rejecting a row
+func (f Filter) active() bool {
+	return len(f.Arg) > 0 || len(f.Ref.Integration) > 0
+}
+
+// contains/eq over 20-byte arguments: a row passes exactly when
+// its address is one of the arguments
+func (f Filter) wholeAddresses() bool {
+	if f.Op != "contains" && f.Op != "eq" {
+		return false
+	}
+	if len(f.Ref.Table) > 0 { // contains looks the address up in the referenced table instead
+		return false
+	}
+	for _, arg := range f.Arg {
+		if len(eth.DecodeHex(arg)) != 20 {
+			return false
+		}
+	}
+	return true
 }
 
 func (ig Integration) Delete(ctx context.Context, pg wpg.Conn, n uint64) error {
